@@ -3,14 +3,17 @@ import Spec.OMap
 import Proofs.C20Sites
 import Generated.C20MapRanges
 import Generated.C20PkgState
+import Generated.C20Resets
 import Drivers.Common
 /-! `vm_c20`: line protocol over `Model.OMap` / `Spec.OMap`.
 
   omap <TAB> <op> <op> …       ops: s<key>=<int>  (Set)   d<key>  (Delete)     keys: any text without space/=
   spec <TAB> <ops>             same, evaluated by the reference specification
     → range=<k>:<v>,…  len=<n>  get=<k>:<v|->|…  idx=<i>:<k>:<v>|<i>:-|…  stop=<k>:<v>,…
-  bad                          → the regenerated sites / cells that the classification table does not
-                                 put in order (what makes the `decide` obligations fail), `-` if none
+  bad                          → the regenerated sites / cells / resets / observers / entry-path calls that the
+                                 hand-written tables do not put in order (what makes the `decide` obligations
+                                 fail), `-` if none
+  probes                       → the names of the clean channels the probe table relies on
   where get probes the keys a b c d e, idx probes -1 … len+1, and stop is what a `Range`
   callback sees that returns false at the first key `b`.
 -/
@@ -51,13 +54,20 @@ def showBad : String :=
     (fun s => s!"site {s.file} {s.fn} range {s.expr} #{s.ord} ({repr s.summary})")
   let bc := (C20Sites.badCells C20Sites.cells C20Sites.KnownCells Generated.C20PkgState.cells).map
     (fun c => s!"cell {c.pkg}.{c.name}")
-  let sh := Generated.C20MapRanges.shape.map (fun s => s!"shape {s}")
-  let all := bs ++ bc ++ sh
+  let sh := (Generated.C20MapRanges.shape ++ Generated.C20Resets.shape).map (fun s => s!"shape {s}")
+  let br := (C20Sites.badResets C20Sites.cells C20Sites.resetSpecs Generated.C20Resets.uses).map (fun s => s!"reset {s}")
+  let up := (C20Sites.unprobed C20Sites.cells C20Sites.probes Generated.C20Resets.uses).map
+    (fun u => s!"unprobed observer {u.file} {u.fn} of {u.pkg}.{u.name}")
+  let en := match C20Sites.entryDiff Generated.C20Resets.entry C20Sites.expectedEntry with
+    | some d => [s!"entry path {d}"]
+    | none => []
+  let all := bs ++ bc ++ sh ++ br ++ up ++ en
   if all.isEmpty then "-" else " ; ".intercalate all
 
 def handle (line : String) : String :=
   match line.splitOn "\t" with
   | ["bad"] => showBad
+  | ["probes"] => " ".intercalate (C20Sites.probeChannels C20Sites.probes)
   | ["omap", ops] =>
       match parseOps ops with
       | some ops =>
